@@ -41,7 +41,31 @@ def shards(tier, seed):
     return out
 
 
+SIBLINGS_UNIVERSE = 9700
+
+
+def siblings_ir():
+    """several members of one class side by side, at every depth: their keys differ in one path element only"""
+    ns = 'urn:vf:c03:siblings'
+    I = lambda: {'prim': 'Integer', 'facets': {}}
+    U = lambda: {'prim': 'Unicode', 'facets': {}}
+    T = lambda name, fields: {'name': name, 'ns': ns, 'base': None, 'has_xmldata': False, 'fields': fields}
+    types = [T('Point', [['x', I()], ['y', I()], ['tag', U()]]),
+             T('Segment', [['start', {'ref': 'Point'}], ['end', {'ref': 'Point'}], ['mids', {'array': {'ref': 'Point'}}], ['more', {'array': {'ref': 'Point'}}],
+                           ['name', U()]]),
+             T('Route', [['first', {'ref': 'Segment'}], ['last', {'ref': 'Segment'}], ['legs', {'array': {'ref': 'Segment'}}], ['alt', {'array': {'ref': 'Segment'}}],
+                         ['home', {'ref': 'Point'}]])]
+    M_ = lambda name, args, style='wrapped': {'name': name, 'args': args, 'returns': [], 'style': style}
+    methods = [M_('points', [['a', {'ref': 'Point'}], ['b', {'ref': 'Point'}]]), M_('segment', [['seg', {'ref': 'Segment'}]]),
+               M_('segments', [['one', {'ref': 'Segment'}], ['two', {'ref': 'Segment'}], ['many', {'array': {'ref': 'Segment'}}]]),
+               M_('route', [['r', {'ref': 'Route'}], ['back', {'ref': 'Route'}]]), M_('bare_segment', [['arg', {'ref': 'Segment'}]], 'bare'),
+               M_('bare_route', [['arg', {'ref': 'Route'}]], 'bare')]
+    return {'uid': SIBLINGS_UNIVERSE, 'tns': ns, 'types': types, 'services': [{'name': 'S', 'methods': methods}]}
+
+
 def universe(seed, uid):
+    if uid == SIBLINGS_UNIVERSE:
+        return siblings_ir()
     rng = core.rng_for(seed, PROP, 'uni%d' % uid)
     o = gen.Opts(digits=True, sub_names=True, attrs=False, nested_arrays=0.0, styles=('wrapped', 'wrapped', 'wrapped', 'bare'), multi_return=False,
                  inheritance=True, text_alphabet='any')
@@ -459,6 +483,7 @@ def run(spec, R):
         run_universe(R, spec['seed'], uid, spec['tier'])
     if spec['first'] == 0:
         self_reference_scenario(R, spec['seed'])
+        run_universe(R, spec['seed'], SIBLINGS_UNIVERSE, 'thorough')
 
 
 def replay(v, R):
